@@ -195,6 +195,72 @@ pub fn run(ctx: &mut Ctx) {
         }
     });
 
+    // every microsecond of one-minute windows around decision points (a time-of-day dependent rule is periodic in
+    // the minute / hour / day, so one complete period at µs resolution is a complete sub-space)
+    for (k, (label, start)) in micro_windows(w).into_iter().enumerate() {
+        let r = ctx.sweep(&format!("every_microsecond_window_{k}"), &format!("every microsecond of {label} x 12 units on Timestamp"), 60_000_000, 1 << 16, |range, acc| {
+            let mut cur: Option<(Cal, DayRef, Date)> = None;
+            for idx in range {
+                let inst = start + idx as i64;
+                let (n, t) = (inst.div_euclid(US_DAY) as i32, inst.rem_euclid(US_DAY));
+                if cur.as_ref().map(|x| x.0.n) != Some(n) {
+                    cur = Some((cal.at(n), day_ref(w, n), Date::try_from_days(n).unwrap()));
+                }
+                let (c, dr, date) = cur.as_ref().unwrap();
+                let ts = Timestamp::new(*date, Time::try_from_usecs(t).unwrap());
+                for u in 0..12 {
+                    acc.states += 1;
+                    acc.traces += 1;
+                    let got = guard(|| round_ts(u, ts).map(|x| x.usecs()));
+                    check_round(acc, idx, "Timestamp", u, c, t, dr, ref_round(w, dr, u, c, t, TS_MAX), got);
+                }
+            }
+        });
+        ctx.require(&r, &["rounded_up", "rounded_down"]);
+    }
+    if ctx.thorough() {
+        let (label, start) = micro_hour_window(w);
+        ctx.sweep("every_microsecond_of_an_hour", &format!("every microsecond of {label} x units day / hour / minute on Timestamp"), 3_600_000_000, 1 << 20, |range, acc| {
+            let mut cur: Option<(Cal, DayRef, Date)> = None;
+            for idx in range {
+                let inst = start + idx as i64;
+                let (n, t) = (inst.div_euclid(US_DAY) as i32, inst.rem_euclid(US_DAY));
+                if cur.as_ref().map(|x| x.0.n) != Some(n) {
+                    cur = Some((cal.at(n), day_ref(w, n), Date::try_from_days(n).unwrap()));
+                }
+                let (c, dr, date) = cur.as_ref().unwrap();
+                let ts = Timestamp::new(*date, Time::try_from_usecs(t).unwrap());
+                for u in 9..12 {
+                    acc.states += 1;
+                    acc.traces += 1;
+                    let got = guard(|| round_ts(u, ts).map(|x| x.usecs()));
+                    check_round(acc, idx, "Timestamp", u, c, t, dr, ref_round(w, dr, u, c, t, TS_MAX), got);
+                }
+            }
+        });
+        // the complete value space of the Oracle-style date over one full 400-year cycle
+        let (d0, d1) = cycle_days(w);
+        ctx.bound("full_cycle", json!("1601-01-01 ..= 2000-12-31 (146,097 days) x every second of the day"));
+        ctx.sweep("oracle_date_full_cycle_every_second", "every OracleDate value (whole second) of one 400-year Gregorian cycle x units day / hour / minute", (d1 - d0 + 1) as u64, 8, |range, acc| {
+            for idx in range {
+                let n = d0 + idx as i32;
+                let c = cal.at(n);
+                let dr = day_ref(w, n);
+                let date = Date::try_from_days(n).unwrap();
+                for s in 0..86_400i64 {
+                    let t = s * US_SEC;
+                    let od = OracleDate::new(date, Time::try_from_usecs(t).unwrap());
+                    for u in 9..12 {
+                        acc.states += 1;
+                        acc.traces += 1;
+                        let got = guard(|| round_od(u, od).map(|x| x.usecs()));
+                        check_round(acc, idx, "OracleDate", u, &c, t, &dr, ref_round(w, &dr, u, &c, t, OD_MAX), got);
+                    }
+                }
+            }
+        });
+    }
+
     // hidden per-thread state: two-step histories from the initial state
     crate::history::two_step_histories(ctx, "C11", crate::history::Family::Round);
     crate::history::alternating_with_anchor(ctx, "C11", crate::history::Family::Round);
